@@ -40,6 +40,14 @@ def V(x):
     raise TypeError(x)
 
 
+def float_atoms(vh, texts):
+    """Model values of the float64 nearest to each decimal text, as the harness encodes every recorded double (vlib.EncFloat): doubles of
+    magnitude >= 2^53 carry their exact integer value, so the model can follow toInt / % on them."""
+    import json
+    import subprocess
+    return json.loads(subprocess.run([vh, "floatatoms"] + [str(t) for t in texts], check=True, capture_output=True, text=True).stdout)
+
+
 def unV(v):
     """tagged -> Python (for messages / jq literals); opaque floats as strings."""
     t = v["t"]
